@@ -286,6 +286,7 @@ Example C14_show_refutes_relink :
   c15_show_checkb 2 WinShowSpec.relink_before (r_tree (win_show no_defects (WinShowSpec.st_of WinShowSpec.relink_before) 2)) = true /\
   w_fchild (t_info (r_tree (win_show no_defects (WinShowSpec.st_of WinShowSpec.relink_before) 2))) = Some 1.
 Proof. exact WinShowSpec.show_refutes_relink. Qed.
+Print Assumptions C14_show_refutes_relink.
 
 Example C14_show_refutes_one_level :
   WinLogDisjoint.ids_unique WinShowSpec.one_level_before /\
@@ -293,6 +294,7 @@ Example C14_show_refutes_one_level :
   c15_show_checkb 1 WinShowSpec.one_level_before (r_tree (win_show no_defects (WinShowSpec.st_of WinShowSpec.one_level_before) 1)) = true /\
   w_fchild (t_info (r_tree (win_show no_defects (WinShowSpec.st_of WinShowSpec.one_level_before) 1))) = Some 1.
 Proof. exact WinShowSpec.show_refutes_one_level. Qed.
+Print Assumptions C14_show_refutes_one_level.
 
 Example C14_nonvacuous :
   key_order tree_nv = [1; 5; 2; 6; 0; 4] /\
